@@ -121,6 +121,14 @@ Theorem C17_pick_best_partial :
 Proof. exact pick_best_order_nokube. Qed.
 Print Assumptions C17_pick_best_partial.
 
+(* a hostname can be owned by at most one Kubernetes service: when it is visible it wins, in any order *)
+Theorem C17_pick_best_kube_order :
+  forall l l' k, Permutation l l' -> In k l -> n_visible k = true -> n_kube k = true ->
+    (forall x, In x l -> n_visible x = true -> n_kube x = true -> x = k) ->
+    pick_best l = pick_best l'.
+Proof. exact pick_best_order_kube. Qed.
+Print Assumptions C17_pick_best_kube_order.
+
 (* ---- virtual hosts of the HTTP-proxy route (candidate K10) *)
 
 (* mergeAllVirtualHosts alone follows map iteration order ... *)
